@@ -48,6 +48,13 @@ type c01Case struct {
 	// judged message inside TLS. What a connection carried before has no
 	// bearing on the next message.
 	Prior string `json:"prior,omitempty"`
+	// PriorSize (with Prior): the earlier transaction's MAIL declares the
+	// exact size of its message (SIZE=n). DeclaredSlack >= 0 with Declare:
+	// the judged transaction's MAIL declares the size of the message on the
+	// wire plus DeclaredSlack (an estimate that is not too low).
+	PriorSize     bool `json:"prior_size,omitempty"`
+	Declare       bool `json:"declare,omitempty"`
+	DeclaredSlack int  `json:"declared_slack,omitempty"`
 }
 
 // maxStretch is the length of the longest run of octets that ends in LF (the
@@ -122,13 +129,17 @@ func c01Run(c c01Case) Verdict {
 	nprior := 0
 	if prior != "" {
 		nprior = 1
-		if _, e := openData(w, cfg.LMTP, 1); e != "" {
-			w.Finish()
-			return Verdict{Inconclusive: "earlier transaction: " + e}
-		}
 		earlier := "an earlier message\r\n..with a dot line\r\n.\r\n"
 		if cfg.MaxMessageBytes > 0 && cfg.MaxMessageBytes < 40 {
 			earlier = ".\r\n" // the empty message fits every limit
+		}
+		var pparams []string
+		if c.PriorSize {
+			pparams = []string{fmt.Sprintf("SIZE=%d", len(earlier)-3)}
+		}
+		if _, e := openData(w, cfg.LMTP, 1, pparams...); e != "" {
+			w.Finish()
+			return Verdict{Inconclusive: "earlier transaction: " + e}
 		}
 		out, st := w.Exchange([]byte(earlier))
 		if prs, err := harness.ParseReplies(out); st != harness.QIdle || err != nil || len(prs) != 1 || prs[0].Class() != 2 {
@@ -147,7 +158,12 @@ func c01Run(c c01Case) Verdict {
 			}
 		}
 	}
-	if _, e := openData(w, cfg.LMTP, 1); e != "" {
+	var jparams []string
+	if c.Declare && (cfg.MaxMessageBytes == 0 || int64(len(stream)+c.DeclaredSlack) <= cfg.MaxMessageBytes) {
+		// (a declaration above the server's limit is refused at MAIL: C06)
+		jparams = []string{fmt.Sprintf("SIZE=%d", len(stream)+c.DeclaredSlack)}
+	}
+	if _, e := openData(w, cfg.LMTP, 1, jparams...); e != "" {
 		w.Finish()
 		if prior != "" {
 			return failf("after-earlier-transaction", "after an earlier DATA transaction (%s) the next one could not be opened: %s", prior, e)
@@ -296,6 +312,10 @@ func c01Gen(t *rapid.T) c01Case {
 	c.FinalEOF = rapid.IntRange(0, 3).Draw(t, "final_eof") == 0
 	if !c.FinalEOF && rapid.IntRange(0, 3).Draw(t, "prior") == 0 {
 		c.Prior = rapid.SampledFrom([]string{"data", "data+starttls"}).Draw(t, "prior_kind")
+		c.PriorSize = rapid.Bool().Draw(t, "prior_size")
+	}
+	if rapid.IntRange(0, 4).Draw(t, "declare") == 0 {
+		c.Declare, c.DeclaredSlack = true, rapid.SampledFrom([]int{0, 0, 1, 1000}).Draw(t, "declared_slack")
 	}
 	// a few paused transfers (each costs its pause in wall-clock time)
 	if len(stream) > 2 && rapid.IntRange(0, 999).Draw(t, "pause")%150 == 7 {
@@ -361,7 +381,7 @@ func c01LimitVariants(word []byte, read int) []c01Case {
 
 func TestC01(t *testing.T) {
 	registerAll()
-	st.Rule = "cases = (DATA octet stream, segmentation, backend read sizes, mode, size limit above/at/below the message length, line limit no smaller than the longest LF-delimited stretch, optionally a pause longer than the server's WriteTimeout in mid-message, optionally after an earlier DATA transaction on the same connection - in the clear before a STARTTLS upgrade, or not); exhaustive part: all words over {'.',CR,LF,'x'} up to the length bound, each closed with the shortest legal end marker, the shorter ones also under every size limit from 1 to their length; non-trivial = body has a line-start dot, a bare CR, a bare LF or an end-marker look-alike; distinct = hash of the whole case"
+	st.Rule = "cases = (DATA octet stream, segmentation, backend read sizes, mode, size limit above/at/below the message length, line limit no smaller than the longest LF-delimited stretch, optionally a pause longer than the server's WriteTimeout in mid-message, optionally after an earlier DATA transaction on the same connection - in the clear before a STARTTLS upgrade, or not, its MAIL optionally declaring its SIZE - and optionally with a declared SIZE that is not too low); exhaustive part: all words over {'.',CR,LF,'x'} up to the length bound, each closed with the shortest legal end marker, the shorter ones also under every size limit from 1 to their length; non-trivial = body has a line-start dot, a bare CR, a bare LF or an end-marker look-alike; distinct = hash of the whole case"
 	if !regress(t, "C01") {
 		return
 	}
